@@ -63,6 +63,10 @@ func c03ScalarBytes(s *scalar.Scalar) []byte {
 
 func c03Copy(p *curve.EdwardsPoint) *curve.EdwardsPoint { return curve.NewEdwardsPoint().Set(p) }
 
+// c03Dirty returns a receiver holding a stale, unrelated value (the basepoint):
+// every operation must overwrite its receiver completely, also for empty input.
+func c03Dirty() *curve.EdwardsPoint { return c03Copy(curve.ED25519_BASEPOINT_POINT) }
+
 // c03Rerep returns the same point in a different projective representation,
 // using only public operations (from outside the package Z cannot be set
 // directly).  aux is any valid point.  mode 0 keeps the decoded (Z = 1) form.
@@ -204,7 +208,7 @@ func c03CheckGL(c c03GLCase) h.Result {
 	if same {
 		r.Class("p==q").NT(true)
 	}
-	New := curve.NewEdwardsPoint
+	New := c03Dirty
 
 	c03Expect(r, "Add", New().Add(p, q), ref.Add(pr, qr))
 	c03Expect(r, "Add", New().Add(q, p), ref.Add(pr, qr))
@@ -308,7 +312,7 @@ func c03CheckMul(c c03MulCase) h.Result {
 	}
 	pEnc := pr.Encode()
 	s, s2 := c03Scalar(c.S), c03Scalar(c.S2)
-	New := curve.NewEdwardsPoint
+	New := c03Dirty
 
 	sP := h.C03Expected([]h.C03Term{{P: c.P, S: c.S}}, c.Direct)
 	s2P := h.C03Expected([]h.C03Term{{P: c.P, S: c.S2}}, false)
@@ -369,7 +373,7 @@ func c03GenMSM(t *rapid.T, large bool) c03MSMCase {
 	case large:
 		// hashed so that every threshold length is equally likely (rapid's own
 		// integer draws are biased towards the first entries)
-		n = h.C03LargeN[int(h.Expand(rapid.Uint64().Draw(t, "nseed"), 1)[0])%len(h.C03LargeN)]
+		n = h.C03LargeN[h.C03UniformIndex(t, len(h.C03LargeN), "n")]
 	case rapid.IntRange(0, 9).Draw(t, "nk") < 6:
 		n = rapid.SampledFrom(h.C03SmallN).Draw(t, "n")
 	default:
@@ -416,7 +420,7 @@ func c03CheckMSM(c c03MSMCase) h.Result {
 		scs[i] = c03Scalar(c.Terms[i].S)
 	}
 	want := h.C03Expected(c.Terms, c.Direct)
-	New := curve.NewEdwardsPoint
+	New := c03Dirty
 
 	c03Expect(r, "MultiscalarMul", New().MultiscalarMul(scs, pts), want)
 	c03Expect(r, "MultiscalarMulVartime", New().MultiscalarMulVartime(scs, pts), want)
